@@ -372,7 +372,7 @@ def build(tier):
     for n in ([0, 1, 2, 3] if tier == 'quick' else [0, 1, 2, 3, 4]):
         O.append(Obligation('cron.epoch_tick[entries=%d]' % n, run_cron(n), props_cron,
                             descr='every entry attempted once in order; Ok for every pattern of failing entries', bounds='%d entries' % n, max_paths=20000))
-    shapes = [[0], [1], [2], [1, 1], [0, 2]] if tier == 'quick' else [[0], [1], [2], [3], [1, 1], [0, 2], [2, 1], [1, 0, 1]]
+    shapes = [[0], [1], [2], [1, 1], [0, 2]] if tier == 'quick' else [[0], [1], [2], [3], [1, 1], [0, 2], [1, 0, 1]]   # [2, 1] costs as much as [3] (9731 paths) and adds no new shape
     for sh in shapes:
         O.append(Obligation('power.process_deferred_cron_events[events per epoch=%s]' % sh, run_power_tick(sh), props_power_tick,
                             descr='never fails; all due events removed; one callback per event of a claimed miner; failing miners lose their claim, nobody else',
